@@ -160,6 +160,21 @@ Proof.
   - (* __to_array *) peek_all Hok Hst l [v]. reflexivity.
 Qed.
 
+(* the same with the peeked arguments spelled out *)
+Theorem native_wrapper_generic : forall F P re self n s l vs,
+  stack_ok s -> stack_of s = l ++ vs -> length vs = native_arity n ->
+  native_body F P re self n s =
+  match conv_args F (native_sig n) vs 1 (st_heap s) with
+  | CaOk args => native_fn F P re self n args s
+  | CaFail i => NErr (EConversion (N.of_nat i)) s
+  | CaUb => NStop AUB s
+  end.
+Proof.
+  intros F P re self n s l vs Hok Hst Hlen.
+  rewrite (native_body_typed F P re self n l vs Hok Hst Hlen). unfold typed_call.
+  rewrite <- Hlen, (peek_args_app l vs Hok Hst). reflexivity.
+Qed.
+
 (* ------------------------------------------------------------------ *)
 (* call_native for every native of the menu                            *)
 (* ------------------------------------------------------------------ *)
@@ -343,4 +358,105 @@ Proof.
     replace (call_stack_size <=? length (fr :: st_calls s)) with false
       by (symmetry; apply Nat.leb_gt; cbn [length]; lia);
     reflexivity.
+Qed.
+
+(* ------------------------------------------------------------------ *)
+(* Instances of the generic statement                                  *)
+(* ------------------------------------------------------------------ *)
+
+(* the statement of VmProofs.native_args_sub2, now an instance *)
+Corollary native_args_sub2_instance : forall F P re fuel s l v1 v2 a b,
+  stack_ok s -> stack_of s = l ++ [v1; v2] ->
+  to_i64 F (st_heap s) v1 = Some a -> to_i64 F (st_heap s) v2 = Some b ->
+  exists s',
+    call_native_fuel F P re (S fuel) (handle_of_bytes name_sub2) s = NOk (VInt (wrap_i64 (a - b))) s' /\
+    stack_of s' = l ++ [VInt (wrap_i64 (a - b))] /\
+    st_log s' = st_log s ++ [[TInt a; TInt b]] /\
+    st_calls s' = st_calls s /\ st_globals s' = st_globals s /\ st_heap s' = st_heap s.
+Proof.
+  intros F P re fuel s l v1 v2 a b Hok Hst Ha Hb.
+  destruct (native_args_menu_simple F P re fuel NSub2 l [v1; v2] [AInt a; AInt b] eq_refl Hok Hst eq_refl eq_refl)
+    as (v & e & s' & Hr & Hcall & _ & Hs' & Hl & Hc & Hg & Hh).
+  { intros [|[|j]] Hj; cbn [native_arity] in Hj; try lia; cbn [nth native_sig conv]; [rewrite Ha|rewrite Hb];
+      reflexivity. }
+  cbn [simple_result] in Hr. inversion Hr; subst v e. exists s'. repeat split; auto.
+Qed.
+
+(* cat2(a: &str, b: &str) *)
+Corollary native_args_cat2 : forall F P re fuel s l v1 v2 a b,
+  stack_ok s -> stack_of s = l ++ [v1; v2] ->
+  as_str (st_heap s) v1 = SIs a -> as_str (st_heap s) v2 = SIs b ->
+  exists s',
+    call_native_fuel F P re (S fuel) (handle_of_bytes name_cat2) s = NOk (VInt (Z.of_nat (length a + length b))) s' /\
+    stack_of s' = l ++ [VInt (Z.of_nat (length a + length b))] /\
+    st_log s' = st_log s ++ [[TStr a; TStr b]] /\
+    st_calls s' = st_calls s /\ st_globals s' = st_globals s /\ st_heap s' = st_heap s.
+Proof.
+  intros F P re fuel s l v1 v2 a b Hok Hst Ha Hb.
+  destruct (native_args_menu_simple F P re fuel NCat2 l [v1; v2] [AStr a; AStr b] eq_refl Hok Hst eq_refl eq_refl)
+    as (v & e & s' & Hr & Hcall & _ & Hs' & Hl & Hc & Hg & Hh).
+  { intros [|[|j]] Hj; cbn [native_arity] in Hj; try lia; cbn [nth native_sig conv]; [rewrite Ha|rewrite Hb];
+      reflexivity. }
+  cbn [simple_result] in Hr. inversion Hr; subst v e. exists s'. repeat split; auto.
+Qed.
+
+(* cat2: the second parameter is converted first; a non-string first parameter is only reported when the second
+   one is a string *)
+Corollary native_conversion_error_cat2 : forall F P re fuel s l v1 v2,
+  stack_ok s -> stack_of s = l ++ [v1; v2] ->
+  (as_str (st_heap s) v2 = SNot \/ (as_str (st_heap s) v1 = SNot /\ exists b, as_str (st_heap s) v2 = SIs b)) ->
+  exists s',
+    call_native_fuel F P re (S fuel) (handle_of_bytes name_cat2) s
+      = NErr (ETaskFailure name_cat2
+                (EConversion (match as_str (st_heap s) v2 with SNot => 2 | _ => 1 end))) s' /\
+    stack_of s' = l /\ st_calls s' = st_calls s /\ st_globals s' = st_globals s /\ st_heap s' = st_heap s /\
+    st_log s' = st_log s.
+Proof.
+  intros F P re fuel s l v1 v2 Hok Hst H.
+  destruct H as [H2 | (H1 & b & H2)]; rewrite H2.
+  - destruct (native_conversion_error_menu F P re fuel NCat2 l [v1; v2] (j := 1) Hok Hst eq_refl)
+      as (s' & Hcall & _ & Hs' & Hc & Hg & Hh & Hl).
+    + cbn; lia.
+    + cbn [nth native_sig conv]. rewrite H2. reflexivity.
+    + intros j' H3 H4. cbn [native_arity] in H4. lia.
+    + exists s'. repeat split; auto.
+  - destruct (native_conversion_error_menu F P re fuel NCat2 l [v1; v2] (j := 0) Hok Hst eq_refl)
+      as (s' & Hcall & _ & Hs' & Hc & Hg & Hh & Hl).
+    + cbn; lia.
+    + cbn [nth native_sig conv]. rewrite H1. reflexivity.
+    + intros [|[|j']] H3 H4; cbn [native_arity] in H4; try lia. cbn [nth native_sig conv]. rewrite H2. eauto.
+    + exists s'. repeat split; auto.
+Qed.
+
+(* tab1(t: &CaoLangTable) *)
+Corollary native_args_tab1 : forall F P re fuel s l v a t,
+  stack_ok s -> stack_of s = l ++ [v] -> get_table (st_heap s) v = TblOk a t ->
+  exists s',
+    call_native_fuel F P re (S fuel) (handle_of_bytes name_tab1) s = NOk (VInt (Z.of_nat (length (tkeys t)))) s' /\
+    stack_of s' = l ++ [VInt (Z.of_nat (length (tkeys t)))] /\
+    st_log s' = st_log s ++ [[TInt (Z.of_nat (length (tkeys t)))]] /\
+    st_calls s' = st_calls s /\ st_globals s' = st_globals s /\ st_heap s' = st_heap s.
+Proof.
+  intros F P re fuel s l v a t Hok Hst Ht.
+  destruct (native_args_menu_simple F P re fuel NTab1 l [v] [ATable a t] eq_refl Hok Hst eq_refl eq_refl)
+    as (r & e & s' & Hr & Hcall & _ & Hs' & Hl & Hc & Hg & Hh).
+  { intros [|j] Hj; cbn [native_arity] in Hj; try lia; cbn [nth native_sig conv]; rewrite Ht; reflexivity. }
+  cbn [simple_result] in Hr. inversion Hr; subst r e. exists s'. repeat split; auto.
+Qed.
+
+(* log1(v: Value): any value is passed on as it is; the native sees its argument still on the stack *)
+Corollary native_args_log1 : forall F P re fuel s l v,
+  stack_ok s -> stack_of s = l ++ [v] ->
+  exists s',
+    call_native_fuel F P re (S fuel) (handle_of_bytes name_log1) s = NOk VNil s' /\
+    stack_of s' = l ++ [VNil] /\
+    st_log s' = st_log s ++ [[TInt (Z.of_nat (length l + 1)); TInt (Z.of_nat (length (st_calls s)));
+                              tree_of F (st_heap s) v]] /\
+    st_calls s' = st_calls s /\ st_globals s' = st_globals s /\ st_heap s' = st_heap s.
+Proof.
+  intros F P re fuel s l v Hok Hst.
+  destruct (native_args_menu_simple F P re fuel NLog1 l [v] [AValue v] eq_refl Hok Hst eq_refl eq_refl)
+    as (r & e & s' & Hr & Hcall & _ & Hs' & Hl & Hc & Hg & Hh).
+  { intros [|j] Hj; cbn [native_arity] in Hj; try lia; reflexivity. }
+  cbn [simple_result native_arity] in Hr. inversion Hr; subst r e. exists s'. repeat split; auto.
 Qed.
